@@ -140,6 +140,34 @@ MUTATIONS = {
         old='if self.jpeg_quality >= 0 and img.mode == "RGB":',
         new='if self.jpeg_quality != -1 and img.mode == "RGB":',
     ),
+    # ---- payload size classes (round 7, seeded/C03-z2): payloads encoded block by block ----------
+    "c03-iterm-anim-encode-1mib-blocks": dict(  # native ANIM payload, blocks of 2**20 bytes
+        file="image/iterm2.py", props=["C03"], nth=0,
+        old="standard_b64encode(compressed_image.read()).decode(),",
+        new='"".join(standard_b64encode(b).decode() for b in iter(lambda: compressed_image.read(2**20), b"")),',
+    ),
+    "c03-iterm-whole-encode-64k-blocks": dict(  # WHOLE payload (file / re-encoded), blocks of 2**16 bytes
+        file="image/iterm2.py", props=["C03"], nth=1,
+        old="standard_b64encode(compressed_image.read()).decode(),",
+        new='"".join(standard_b64encode(b).decode() for b in iter(lambda: compressed_image.read(2**16), b"")),',
+    ),
+    "c03-iterm-whole-encode-768k-blocks": dict(  # CORRECT alternative: 3 * 2**18 is a multiple of 3
+        file="image/iterm2.py", props=["C03"], nth=1, equivalent=True,
+        old="standard_b64encode(compressed_image.read()).decode(),",
+        new='"".join(standard_b64encode(b).decode() for b in iter(lambda: compressed_image.read(3 * 2**18), b"")),',
+    ),
+    "c03-iterm-lines-encode-64k-blocks": dict(  # LINES strips, blocks of 2**16 bytes
+        file="image/iterm2.py", props=["C03"],
+        old="standard_b64encode(compressed_image.getvalue()).decode()",
+        new='"".join(standard_b64encode(compressed_image.getvalue()[i : i + 2**16]).decode() '
+            'for i in range(0, compressed_image.tell(), 2**16))',
+    ),
+    "c03-kitty-encode-1mib-blocks": dict(  # kitty payload, blocks of 2**20 bytes
+        file="image/kitty.py", props=["C03"],
+        old="return standard_b64encode(self.payload)",
+        new='return b"".join(standard_b64encode(self.payload[i : i + 2**20]) '
+            'for i in range(0, len(self.payload), 2**20))',
+    ),
     "c03-kitty-whole-at-render-size": dict(
         file="image/kitty.py", props=["C03"],
         old="self._get_minimal_render_size()\n            if render_method == WHOLE",
